@@ -286,3 +286,13 @@ def s_append(I, recv, args, kwargs):
 def s_isnull(I, recv, args, kwargs):
     from .libnp import np_isnan
     return SSeries(recv.index, np_isnan(I, [recv.values], {}), recv.name)
+
+
+@method("frame", "to_numpy")
+def f_to_numpy(I, recv, args, kwargs):
+    return recv.values.with_kind("ndarray")
+
+
+@method("frame", "copy")
+def f_copy(I, recv, args, kwargs):
+    return SFrame(recv.index, recv.values, recv.columns)
